@@ -465,6 +465,13 @@ macro_rules! field_suite {
                         None
                     }
                 }),
+                ("deserialize_uncompressed_unchecked", |v| {
+                    if v.len() == N8 {
+                        F::deserialize_uncompressed_unchecked(v).ok()
+                    } else {
+                        None
+                    }
+                }),
                 ("from_bigint", |v| {
                     if v.len() != N8 {
                         return None;
@@ -1031,6 +1038,18 @@ macro_rules! field_suite {
                     }
                 }
             }
+            /// the same plan line through the calls BOTH builds share (C12): the first form of the operator, `==` in
+            /// both orders, the ordering
+            pub fn plan_line_shared(out: &mut dyn Write, op: &str, a: &[u8], bb: &[u8]) {
+                let (x, y) = (of(a), of(bb));
+                if op == "eq" {
+                    emit_eq(out, 0, x, y);
+                    emit_eq(out, 0, y, x);
+                    emit_cmp(out, x, y);
+                } else if let Some(i) = BIN.iter().position(|f| f.0 == op) {
+                    emit_bin(out, i, x, y);
+                }
+            }
             pub fn sqrt(out: &mut dyn Write, r: &mut ChaCha20Rng, n: usize) {
                 emit(out, json!({"k":"reset","build":BUILD}));
                 let al: Vec<F> = operand_alphabet(&$modulus).iter().map(|x| of(x)).collect();
@@ -1150,6 +1169,29 @@ pub fn record(suite: &str, n: usize, seed: u64, arg: &str, out: &mut dyn Write) 
                     }
                     "Fr" => fr::plan_line(out, op, &a, &b),
                     _ => fp::plan_line(out, op, &a, &b),
+                }
+            }
+        }
+        "fequivfile" => {
+            emit(out, json!({"k":"reset","build":BUILD}));
+            let text = std::fs::read_to_string(arg).expect("plan file");
+            for (i, line) in text.lines().enumerate() {
+                if i % 100 == 99 {
+                    emit(out, json!({"k":"reset","build":BUILD}));
+                }
+                let v: Value = serde_json::from_str(line).expect("json");
+                let a: Vec<u8> = serde_json::from_value(v["a"].clone()).expect("a");
+                let b: Vec<u8> = serde_json::from_value(v["b"].clone()).expect("b");
+                let op = v["op"].as_str().unwrap_or("");
+                match v["field"].as_str().unwrap_or("") {
+                    "Fq" => {
+                        fq::plan_line_shared(out, op, &a, &b);
+                        if op == "eq" {
+                            fq_pair(out, &fq::of(&a), &fq::of(&b));
+                        }
+                    }
+                    "Fr" => fr::plan_line_shared(out, op, &a, &b),
+                    _ => fp::plan_line_shared(out, op, &a, &b),
                 }
             }
         }
